@@ -122,8 +122,8 @@ DoCall ==
             /\ \/ \E o \in IterRefOps : StartCall(C(o, <<h>>, <<FALSE>>, NoneArg, <<>>, n, "arr"), <<"ref">>)
                \/ \E a \in 0..(n + 1) : \E o \in {"nth", "nth_back"} :
                     StartCall(C(o, <<h>>, <<FALSE>>, a, <<>>, n, "arr"), <<"ref">>)
-               \/ \E tgt \in {n, n + 1} \cup (IF n > 0 THEN {n - 1} ELSE {}) :
-                    StartCall(C("collect_iter", <<h>>, <<TRUE>>, tgt, <<>>, n, "arr"), <<"own">>)
+               \/ \E tgt \in {n, n + 1} \cup (IF n > 0 THEN {n - 1} ELSE {}) : \E o \in {"collect_iter", "collect_iter_take"} :
+                    StartCall(C(o, <<h>>, <<TRUE>>, tgt, <<>>, n, "arr"), <<"own">>)
                \/ \E o \in {"iter_fold", "iter_rfold"} : StartCall(C(o, <<h>>, <<TRUE>>, NoneArg, <<>>, n, "arr"), <<"own">>)
                \/ /\ IdsLeft >= n
                   /\ StartCall(C("iter_clone", <<h>>, <<FALSE>>, NoneArg, <<>>, n, "arr"), <<"ref">>)
@@ -186,7 +186,7 @@ DoRet ==
                         vals |-> IF op.name \in SearchByRef THEN op.out ELSE <<>>,
                         res |-> CASE op.name = "iter_position" -> (IF op.stopped THEN op.k - 1 ELSE -1)
                                   [] op.name = "iter_rposition" -> (IF op.stopped THEN op.n - op.k ELSE -1)
-                                  [] op.name = "iter_any" -> (IF op.stopped THEN 1 ELSE 0)
+                                  [] op.name \in {"iter_any", "iter_find_map"} -> (IF op.stopped THEN 1 ELSE 0)
                                   [] op.name = "iter_all" -> (IF op.stopped THEN 0 ELSE 1)
                                   [] OTHER -> -1])
           /\ UNCHANGED nexth
